@@ -54,6 +54,10 @@ def gen_plan(r, index, tier):
     desc = w['desc']
     nv = len(w['values'])
     codecs = _codecs_for(desc)
+    if r.random() < 0.5:
+        # all tasks through the same codec mode: interference needs two calls inside the SAME code
+        # path at the same time (e.g. two decoders both reassembling fragmented strings)
+        codecs = [r.choice(codecs + [c for c in codecs if 'chunk' in c] * 2)]
     tasks = []
     for ti in range(r.randrange(2, 6)):
         kind = r.choice(TASK_KINDS)
